@@ -113,6 +113,10 @@ func runC03(c *Ctx) {
 		if call, ok := src.(*ssa.Call); ok && core.FuncIs(core.StaticCallee(call), "crypto/tls", "Server") {
 			onTLS = true // a reader for the freshly upgraded TLS stream
 		}
+		if onTLS {
+			// the plaintext reader may have read ahead: whatever it buffered behind the SSLRequest is lost to the TLS layer
+			R.Fail("C03.R1", "upgrade-step:read-ahead-dropped", c.at(site), "delivering the same bytes in any segmentation yields the same transcript", "the TLS session reads from the raw connection while the first reader keeps what it had already buffered: a ClientHello that arrives in the same segment as the SSLRequest is dropped and the handshake stalls, whereas it succeeds when the two arrive separately (deliberate with respect to C11: plaintext sent ahead of the handshake must never be interpreted; PostgreSQL reports a protocol violation instead of stalling)")
+		}
 		R.Check(k == "(*Server).Handshake" || onTLS, "C03.R1", "NewReader-site:"+k, c.at(site), "a connection has one reader (a second one only for the TLS stream after an upgrade): bytes buffered by a reader are never dropped", "designated construction site", "buffer.NewReader is constructed in "+fname(site.Parent())+": bytes the previous reader already buffered are lost, so the result depends on segmentation")
 	}
 
